@@ -66,12 +66,14 @@ func drvCase(c *ctx, r *rng.R, path string, bind int, arr []arrival, special str
 		}
 	}
 	defer closeFn()
-	u := newRealClient(clientCfg{path, bind}, serial, endpoint)
+	u := newRealClient(clientCfg{path, bind, ""}, serial, endpoint)
 	t0 := time.Now()
-	res, err := u.GetCardByID(serial, card)
+	res, err := getCard(u, serial, card)
 	el := time.Since(t0)
 	out := "err"
-	if err == nil && res != nil && res.CardNumber == card {
+	if err == errHung {
+		out = "hung"
+	} else if err == nil && res != nil && res.CardNumber == card {
 		out = "ok"
 	} else if err == nil {
 		out = "wrong-result"
@@ -207,22 +209,27 @@ func streamLock(c *ctx) {
 				ep1, ep2 = a.addr(), b.addr()
 				closers = append(closers, a.close, b.close)
 			}
-			u1 := newRealClient(clientCfg{path, bind}, serial1, ep1)
-			u2 := newRealClient(clientCfg{path, bind}, serial2, ep2)
+			// every second round the two clients name the shared port under different (overlapping) bind addresses
+			ip1, note := "", ""
+			if i%2 == 1 && path != "tcp" {
+				ip1, note = "0.0.0.0", "/first-client-binds-0.0.0.0"
+			}
+			u1 := newRealClient(clientCfg{path, bind, ip1}, serial1, ep1)
+			u2 := newRealClient(clientCfg{path, bind, ""}, serial2, ep2)
 			var wg sync.WaitGroup
 			var o1, o2 string
 			var e2 time.Duration
 			wg.Add(2)
 			go func() {
 				defer wg.Done()
-				_, err := u1.GetCardByID(serial1, 111)
+				_, err := getCard(u1, serial1, 111)
 				o1 = map[bool]string{true: "ok", false: "err"}[err == nil]
 			}()
 			time.Sleep(25 * time.Millisecond) // the second call finds the port taken and waits its turn
 			t0 := time.Now()
 			go func() {
 				defer wg.Done()
-				res, err := u2.GetCardByID(serial2, 222)
+				res, err := getCard(u2, serial2, 222)
 				e2 = time.Since(t0)
 				switch {
 				case err != nil:
@@ -241,16 +248,38 @@ func streamLock(c *ctx) {
 			if e2 > 2*T+slack {
 				within = "too-late"
 			}
-			c.w.Emit(fmt.Sprintf("lock %s reply-after=%d", path, delay.Milliseconds()), fmt.Sprintf("first:%s second:%s %s", o1, o2, within), "lock/"+path, "lock/second-"+o2)
+			c.w.Emit(fmt.Sprintf("lock %s reply-after=%d%s", path, delay.Milliseconds(), note), fmt.Sprintf("first:%s second:%s %s", o1, o2, within), "lock/"+path, "lock/second-"+o2)
 		}
+	}
+	// a call that fails before it has a connection (TCP connect refused) must give the shared port back: the
+	// next call from the same fixed bind port, on another path, still gets its answer
+	for _, next := range []string{"udp", "broadcast"} {
+		bind := freePort()
+		refused := fmt.Sprintf("127.0.0.1:%d", freePort())
+		u1 := newRealClient(clientCfg{"tcp", bind, ""}, 1000004, refused)
+		b := newUDPResponder("127.0.0.1", echo(func() time.Duration { return 10 * time.Millisecond }))
+		u2 := newRealClient(clientCfg{next, bind, ""}, 1000005, b.addr())
+		_, err1 := getCard(u1, 1000004, 444)
+		res, err2 := getCard(u2, 1000005, 555)
+		b.close()
+		o2 := "ok"
+		switch {
+		case err2 == errHung:
+			o2 = "hung"
+		case err2 != nil:
+			o2 = "err"
+		case res == nil || res.CardNumber != 555:
+			o2 = "crossed"
+		}
+		c.w.Emit("lockfail tcp-refused-then-"+next, fmt.Sprintf("first:%s second:%s", map[bool]string{true: "ok", false: "err"}[err1 == nil], o2), "lock/after-failed-dial")
 	}
 	// D14: TCP with a fixed bind port, two calls to the SAME endpoint in a row (client closes first)
 	{
 		bind := freePort()
 		b := newTCPResponder("127.0.0.1", echo(func() time.Duration { return 5 * time.Millisecond }))
-		u := newRealClient(clientCfg{"tcp", bind}, 1000003, b.addr())
-		_, err1 := u.GetCardByID(1000003, 333)
-		_, err2 := u.GetCardByID(1000003, 333)
+		u := newRealClient(clientCfg{"tcp", bind, ""}, 1000003, b.addr())
+		_, err1 := getCard(u, 1000003, 333)
+		_, err2 := getCard(u, 1000003, 333)
 		b.close()
 		o := func(e error) string {
 			if e == nil {
@@ -283,7 +312,7 @@ func streamLeak(c *ctx) {
 		}
 		// discovery starts a reader goroutine per call
 		rs := newUDPResponder("127.0.0.1", func(req []byte) []step { return []step{{5 * time.Millisecond, cardReply(1, 1)}} })
-		u := newRealClient(clientCfg{"broadcast", 0}, 1, rs.addr())
+		u := newRealClient(clientCfg{"broadcast", 0, ""}, 1, rs.addr())
 		u.GetDevices()
 		u.GetDevices()
 		rs.close()
